@@ -13,6 +13,7 @@ pub mod capfam;
 pub mod cff2prog;
 pub mod cffprog;
 pub mod colrgrad;
+pub mod colridx;
 pub mod sup;
 pub mod ttprog;
 
@@ -34,6 +35,7 @@ pub fn drivers() -> Vec<(&'static str, Driver)> {
         ("klippa", drive_klippa as Driver),
         ("capfam", capfam::drive as Driver),
         ("colrgrad", colrgrad::drive as Driver),
+        ("colridx", colridx::drive as Driver),
     ]
 }
 
@@ -253,9 +255,12 @@ pub fn viol_identity(v: &Viol) -> String {
 pub fn narrow(case: &Value, sub: u64) -> Value {
     let mut c = case.clone();
     let batch = matches!(c["driver"].as_str(), Some("ttprog") | Some("cffprog") | Some("cff2prog")) && !c["o1"].is_null();
-    let batch = batch || (c["driver"] == "glyfgraph" && !c["s0"].is_null()) || c["driver"] == "capfam" || c["driver"] == "colrgrad";
+    let batch = batch || (c["driver"] == "glyfgraph" && !c["s0"].is_null()) || c["driver"] == "capfam" || c["driver"] == "colrgrad" || c["driver"] == "colridx";
     if batch && c["only"].is_null() {
         c["only"] = json!(sub);
+        if c["driver"] == "colridx" {
+            c["described"] = json!(colridx::describe(&c));
+        }
         if c["driver"] == "colrgrad" {
             c["described"] = json!(colrgrad::describe(&c));
         }
@@ -276,7 +281,8 @@ pub fn resume_batch(case_json: &str, f: &Failure) -> Option<String> {
     let batch = (matches!(c["driver"].as_str(), Some("ttprog") | Some("cffprog") | Some("cff2prog")) && !c["o1"].is_null())
         || (c["driver"] == "glyfgraph" && !c["s0"].is_null())
         || c["driver"] == "capfam"
-        || c["driver"] == "colrgrad";
+        || c["driver"] == "colrgrad"
+        || c["driver"] == "colridx";
     if !batch || !c["only"].is_null() {
         return None;
     }
@@ -457,6 +463,9 @@ pub fn phases(quick: bool) -> Result<Vec<Phase>, String> {
     // 2e. synthesised COLR v1 gradient family
     colrgrad::sanity().map_err(|e| format!("colrgrad assembler gate: {e}"))?;
     out.push(vec_phase("colrgrad", colrgrad::gen_cases(), 1, 9, vec![("colrgrad".into(), colrgrad::bounds())]));
+    // 2f. COLR index-width boundary family
+    colridx::sanity().map_err(|e| format!("colridx template gate: {e}"))?;
+    out.push(vec_phase("colridx", colridx::gen_cases(), 1, 0, vec![("colridx".into(), colridx::bounds())]));
     // 2c. klippa subsetter (observations in C02, judged by C20)
     let (ksize, kbytes) = if quick { (8 << 10, 32) } else { (64 << 10, 128) };
     let kl = gen_klippa_cases(ksize, kbytes, !quick);
